@@ -194,18 +194,46 @@ var zvdWaitCodes = []int{11, 13, 35, 200, 11, 13, 35, 31, 17, 18, 22, 27, 0, 39,
 
 // zvdRandomOp draws a request for an idle connection.
 func zvdRandomOp(u *zvdUniverse, r *mrand.Rand, junkOK bool) zvdRq {
+	return zvdRandomOpHint(u, r, junkOK, nil)
+}
+
+// hint: identities believed to be held at the moment (the driver's own earlier observation); half of the draws that
+// name an identity prefer them, so that signing / removal / hardware certificates meet something.  Never used to judge.
+func zvdRandomOpHint(u *zvdUniverse, r *mrand.Rand, junkOK bool, hint []string) zvdRq {
 	ids := append(append([]string{}, u.Keys...), zvdSortedCerts(u)...)
 	certs := zvdSortedCerts(u)
-	pick := func(xs []string) string { return xs[r.Intn(len(xs))] }
+	held := map[string]bool{}
+	for _, h := range hint {
+		held[h] = true
+	}
+	if hint == nil { // no observation: plain keys are usually there
+		for _, k := range u.Keys {
+			held[k] = true
+		}
+	}
+	pick := func(xs []string) string {
+		if r.Intn(2) == 0 {
+			var pref []string
+			for _, x := range xs {
+				if d, isCert := u.Certs[x]; held[x] || (isCert && held[d.Key]) {
+					pref = append(pref, x)
+				}
+			}
+			if len(pref) > 0 {
+				return pref[r.Intn(len(pref))]
+			}
+		}
+		return xs[r.Intn(len(xs))]
+	}
 	x := r.Intn(100)
 	switch {
 	case x < 14:
 		return zvdRq{Op: "list", Code: 11}
 	case x < 26:
 		return zvdRq{Op: "sign", Arg: pick(ids), Code: 13}
-	case x < 35:
-		return zvdRq{Op: "add", Arg: pick(ids), Code: []int{17, 25}[r.Intn(2)]}
-	case x < 43:
+	case x < 36:
+		return zvdRq{Op: "add", Arg: ids[r.Intn(len(ids))], Code: []int{17, 25}[r.Intn(2)]}
+	case x < 44:
 		return zvdRq{Op: "remove", Arg: pick(ids), Code: 18}
 	case x < 45:
 		return zvdRq{Op: "removeall", Code: 19}
@@ -279,7 +307,7 @@ func zvdRandomSteps(cfg *zvdRandomCfg, r *mrand.Rand) (nconns int, steps []zvdLa
 	if r.Intn(5) < 2 {
 		tickAt = 3 + r.Intn(25)
 	}
-	for len(steps) < n {
+	for tries := 0; len(steps) < n && tries < 20*n; tries++ {
 		if len(steps) == tickAt {
 			steps = append(steps, zvdLab{K: "tick", Rq: zvdNoRq})
 			continue
